@@ -331,7 +331,13 @@ Record lookups := mkLk { lk_model : str -> N; lk_internal : option str -> N }.
 
 Definition MODEL_MUSIC : N := 10.
 
-(* MODEL entry produced by the device_info extractor registered for a type *)
+(* dict(prop.split("=", maxsplit=1) for prop in ("macaddress=" + wama).split(",")) raises
+   ValueError when an element after the first has no "=" *)
+Definition wama_raises (w : str) : bool :=
+  existsb (fun piece => negb (existsb (N.eqb 61) piece)) (tl (split_on 44 w)).
+
+(* MODEL entry produced by the device_info extractor registered for a type; None also when the
+   extractor raises *)
 Definition model_hint (lk : lookups) (ty : str) (p : dict) : option N :=
   let via (key : str) :=
     match pget key p with
@@ -340,7 +346,13 @@ Definition model_hint (lk : lookups) (ty : str) (p : dict) : option N :=
     end in
   if str_eqb ty T_AIRPLAY then via (lit "model")
   else if str_eqb ty T_COMPANION then via (lit "rpmd")
-  else if str_eqb ty T_RAOP || str_eqb ty T_AIRPORT then via (lit "am")
+  else if str_eqb ty T_RAOP || str_eqb ty T_AIRPORT then
+    (* raop.device_info parses "wama" after "am"; a malformed value makes the whole extractor
+       raise, and _get_device_info then skips this ONE service (try/except per service) *)
+    match pget (lit "wama") p with
+    | Some w => if wama_raises w then None else via (lit "am")
+    | None => via (lit "am")
+    end
   else if str_eqb ty T_HSCP then Some MODEL_MUSIC
   else None.
 
